@@ -48,7 +48,7 @@ Definition enc (p : payload) : outcome (list N) :=
   | DevRebootCountdownAns c => Ok (firstn 3 (le_bytes 4 c))
   | DevUpgradeImageReq => Ok []
   | DevUpgradeImageAns st next =>
-    (* firmwaremanagement.go:431-449 (nil check added by fix bb4a8d3) *)
+    (* firmwaremanagement.go:429-450 (nil check added by fix bb4a8d3) *)
     if negb (fw_valid st) && (match next with Some _ => true | None => false end) then Err else
     if fw_valid st && (match next with Some _ => false | None => true end) then Err else
     let b0 := N.land st 0x3 in
@@ -60,7 +60,7 @@ Definition enc (p : payload) : outcome (list N) :=
     else Ok [b0]
   | DevDeleteImageReq v => Ok (le_bytes 4 v)
   | DevDeleteImageAns inv noval =>
-    (* firmwaremanagement.go:503-504 (after fix 01e6d94) *)
+    (* firmwaremanagement.go:515-516 (after fix 01e6d94) *)
     let b := N.land noval 0x1 in
     Ok [N.lor b (shl8 (N.land inv 0x1) 1)]
   end.
@@ -168,7 +168,7 @@ Definition fresh_size (uplink : bool) (cid : N) : option nat :=
     | _ => None
     end.
 
-(* Commands.UnmarshalBinary (firmwaremanagement.go:146-164, since fix e758b58):
+(* Commands.UnmarshalBinary (firmwaremanagement.go:147-166, since fix e758b58):
    b := data[i:]; if the CID has a payload whose fresh Size() is 0 { b = b[:1] } *)
 Definition window (uplink : bool) (data : list N) : list N :=
   match data with
